@@ -10,7 +10,7 @@ fn documented_range(v: usize) -> bool {
     8 <= v && v <= 65000
 }
 
-// One call from the default factory; returns (is_ok, is_bad_parameter, fragment_size afterwards).
+// One call; returns (is_ok, is_bad_parameter).
 fn call(f: &mut RtpsUdpTransportParticipantFactory, v: usize) -> (bool, bool) {
     match f.set_fragment_size(v) {
         Ok(_) => (true, false),
@@ -19,94 +19,46 @@ fn call(f: &mut RtpsUdpTransportParticipantFactory, v: usize) -> (bool, bool) {
     }
 }
 
-// Trigger of KF-C38-1: the range test of set_fragment_size looks at the *stored* value instead of
-// the argument. From default() (1344, in range) a first call therefore accepts every argument; the
-// verdict of a call differs from the contract exactly when
-//      in_range(argument) != in_range(previous setting).
-fn kf_c38_1_trigger(previous: usize, argument: usize) -> bool {
-    documented_range(argument) != documented_range(previous)
-}
-
-// @check props=C38 tier=quick known=KF-C38-1
-// @desc first call on default(): set_fragment_size(a) is Ok iff 8 <= a <= 65000, Err is BadParameter and keeps 1344 — restricted to the recorded trigger (a outside the range; the stored 1344 is inside)
-// @bounds none (a over the full usize domain, restricted to the trigger region a < 8 or a > 65000)
-// @assume trigger of KF-C38-1: in_range(a) != in_range(1344), i.e. a is outside 8..=65000
+// @check props=C38 tier=quick
+// @desc first call on default(): set_fragment_size(a) is Ok iff 8 <= a <= 65000; Ok stores a; Err is BadParameter and keeps the default 1344
+// @bounds none (a over the full usize domain; loop-free code, no unwinding bound)
 // @enc rtps_udp_transport::udp_transport::RtpsUdpTransportParticipantFactory::set_fragment_size
 // @enc rtps_udp_transport::udp_transport::RtpsUdpTransportParticipantFactory::default
 #[kani::proof]
-fn c38_first_call__known() {
+fn c38_first_call() {
     let a: usize = kani::any();
     let mut f = RtpsUdpTransportParticipantFactory::default();
     let before = f.fragment_size();
-    kani::assume(kf_c38_1_trigger(before, a));
+    assert!(before == 1344 && documented_range(before), "C38: default fragment size is 1344, inside the range");
     let (ok, bad) = call(&mut f, a);
     assert!(ok == documented_range(a), "C38: set_fragment_size accepts exactly 8..=65000 (first call)");
-    if !ok {
+    if ok {
+        assert!(f.fragment_size() == a, "C38: accepted value is stored (first call)");
+    } else {
         assert!(bad, "C38: rejection is BadParameter (first call)");
         assert!(f.fragment_size() == before, "C38: rejected call leaves the previous setting (first call)");
     }
     kani::cover!(a == 0, "a = 0 reachable");
     kani::cover!(a == usize::MAX, "a = usize::MAX reachable");
+    kani::cover!(ok && a == 8, "lower boundary accepted");
+    kani::cover!(ok && a == 65000, "upper boundary accepted");
+    kani::cover!(!ok && a == 7, "just below rejected");
+    kani::cover!(!ok && a == 65001, "just above rejected");
 }
 
 // @check props=C38 tier=quick
-// @desc first call on default() with the argument inside the documented range: Ok, fragment_size() == a
-// @bounds none (a over the full usize domain, negation of the KF-C38-1 trigger: 8 <= a <= 65000)
-// @assume negation of the KF-C38-1 trigger for the first call: in_range(a) == in_range(1344)
-// @enc rtps_udp_transport::udp_transport::RtpsUdpTransportParticipantFactory::set_fragment_size
-#[kani::proof]
-fn c38_first_call__rest() {
-    let a: usize = kani::any();
-    let mut f = RtpsUdpTransportParticipantFactory::default();
-    let before = f.fragment_size();
-    assert!(before == 1344 && documented_range(before), "C38: default fragment size is 1344, inside the range");
-    kani::assume(!kf_c38_1_trigger(before, a));
-    let (ok, bad) = call(&mut f, a);
-    assert!(ok == documented_range(a), "C38: set_fragment_size accepts exactly 8..=65000 (first call)");
-    assert!(!bad, "C38: no BadParameter for an argument inside the range");
-    assert!(f.fragment_size() == a, "C38: accepted value is stored");
-    kani::cover!(a == 8, "lower boundary");
-    kani::cover!(a == 65000, "upper boundary");
-}
-
-// @check props=C38 tier=quick known=KF-C38-1
-// @desc second call from ANY previous setting reached by set_fragment_size(a): set_fragment_size(b) is Ok iff 8 <= b <= 65000; on Err(BadParameter) fragment_size() is unchanged — restricted to the recorded trigger
-// @bounds none (a, b over the full usize domain; restricted to in_range(b) != in_range(setting after the first call))
-// @assume trigger of KF-C38-1 on the second call: in_range(b) != in_range(fragment_size() before the call)
-// @enc rtps_udp_transport::udp_transport::RtpsUdpTransportParticipantFactory::set_fragment_size
-#[kani::proof]
-fn c38_second_call__known() {
-    let a: usize = kani::any();
-    let b: usize = kani::any();
-    let mut f = RtpsUdpTransportParticipantFactory::default();
-    let _ = call(&mut f, a);
-    let before = f.fragment_size();
-    kani::assume(kf_c38_1_trigger(before, b));
-    let (ok, bad) = call(&mut f, b);
-    assert!(ok == documented_range(b), "C38: set_fragment_size accepts exactly 8..=65000 (second call)");
-    if !ok {
-        assert!(bad, "C38: rejection is BadParameter (second call)");
-        assert!(f.fragment_size() == before, "C38: rejected call leaves the previous setting (second call)");
-    }
-    kani::cover!(!documented_range(before) && documented_range(b), "valid b after an out-of-range setting got stored");
-    kani::cover!(documented_range(before) && b == 65001, "b just above the range from a valid setting");
-    kani::cover!(documented_range(before) && b == 7, "b just below the range from a valid setting");
-}
-
-// @check props=C38 tier=quick
-// @desc second call from ANY previous setting reached by set_fragment_size(a), outside the KF-C38-1 trigger: Ok iff 8 <= b <= 65000, Ok stores b, Err is BadParameter and leaves fragment_size() unchanged
-// @bounds none (a, b over the full usize domain; negation of the trigger: in_range(b) == in_range(previous setting))
-// @assume negation of the KF-C38-1 trigger on the second call
+// @desc second call from ANY setting the first call can leave behind: set_fragment_size(b) is Ok iff 8 <= b <= 65000, Ok stores b, Err is BadParameter and leaves fragment_size() unchanged; the stored setting is always inside 8..=65000 (representation invariant, so longer histories add nothing)
+// @bounds none (a, b over the full usize domain); history: default() + two calls, closed by the invariant 'stored value in range'
 // @enc rtps_udp_transport::udp_transport::RtpsUdpTransportParticipantFactory::set_fragment_size
 // @enc rtps_udp_transport::udp_transport::RtpsUdpTransportParticipantFactory::fragment_size
 #[kani::proof]
-fn c38_second_call__rest() {
+fn c38_second_call() {
     let a: usize = kani::any();
     let b: usize = kani::any();
     let mut f = RtpsUdpTransportParticipantFactory::default();
     let _ = call(&mut f, a);
     let before = f.fragment_size();
-    kani::assume(!kf_c38_1_trigger(before, b));
+    assert!(documented_range(before), "C38: stored setting stays inside 8..=65000 (invariant)");
     let (ok, bad) = call(&mut f, b);
     assert!(ok == documented_range(b), "C38: set_fragment_size accepts exactly 8..=65000 (second call)");
     if ok {
@@ -115,7 +67,9 @@ fn c38_second_call__rest() {
         assert!(bad, "C38: rejection is BadParameter (second call)");
         assert!(f.fragment_size() == before, "C38: rejected call leaves the previous setting (second call)");
     }
-    kani::cover!(ok && b == 8, "accepted lower boundary");
-    kani::cover!(ok && b == 65000, "accepted upper boundary");
-    // (rejections from an in-range setting lie inside the trigger region: see c38_second_call__known)
+    assert!(documented_range(f.fragment_size()), "C38: stored setting stays inside 8..=65000 (invariant after)");
+    kani::cover!(ok && before != 1344 && b == 8, "accepted lower boundary from a non-default setting");
+    kani::cover!(!ok && before != 1344 && b == 65001, "b just above the range rejected from a non-default setting");
+    kani::cover!(!ok && b == 7, "b just below the range rejected");
+    kani::cover!(!documented_range(a) && ok, "valid b after a rejected first call");
 }
